@@ -34,7 +34,7 @@ N_GEN = {"quick": 40, "thorough": 600}
 REQUIRE = {"paired_runs_same_process": 200, "paired_with_failures": 50, "paired_with_suspensions": 20,
            "paired_with_pool_level_ties": 10, "paired_with_simultaneous_suspension_ends": 5,
            "cross_process_comparisons": 200, "workload_independence_checked": 200, "seed_pairs_checked": 200,
-           "paired_with_more_than_4096_exits_on_one_pool": 4}
+           "paired_with_more_than_4096_exits_on_one_pool": 4, "paired_with_second_live_simulation": 50}
 
 
 def cfg_list(tier, seed):
@@ -168,11 +168,11 @@ def position_for_rollover(h1):
     return _MAX_ID[0] + 1 == target - a or burn == 0
 
 
-def run_once(case):
+def run_once(case, foreign_from=None):
     from ..simworld import Harness
     from ..simmon import EventLogMon
     lg = EventLogMon()
-    h = Harness(case["params"], case["algo"], gen.strip(case["workload"]), [lg])
+    h = Harness(case["params"], case["algo"], gen.strip(case["workload"]), [lg], foreign_from=foreign_from)
     h.run()
     _note_ids(h)
     stats = json.dumps(jsonable(h.stats.to_dict()), sort_keys=True) if h.stats is not None else f"raised {type(h.exc).__name__}: {h.exc}"
@@ -233,7 +233,14 @@ def run_case(case, mon):
         run_once(_sim.random_sim_case(rng, small=True, max_ticks=80))
     if position_for_rollover(h1):
         mon.count("second_run_positioned_at_id_rollover")
-    lg2, h2, st2 = run_once(case)
+    # every second pair: the repetition runs next to a second live simulation (created 3 ticks into the run)
+    with_foreign = (case.get("_cfg", 0) % 2 == 1)
+    lg2, h2, st2 = run_once(case, foreign_from=3 if with_foreign else None)
+    if h2.foreign is not None and h2.foreign_error is None:
+        mon.count("paired_with_second_live_simulation")
+    if h2.foreign_error is not None:
+        mon.fail("concurrent-simulation-raised", "the second simulation stepped next to the repetition raised: "
+                 + h2.foreign_error.strip().splitlines()[-1])
     mon.count("paired_runs_same_process")
     per_pool = {}
     for ci in h1.conts.values():
